@@ -57,7 +57,7 @@ def static_cases(draw, tier, kind):
     else:
         case["intervals"] = draw(intervals_strategy(n, 130 if many else 6))
     if kind == "subset":
-        p = draw(st.sampled_from([1, 2, 3, 4, 2, 3, 65, 80, 130]))  # also more columns than a machine word has bits
+        p = draw(st.sampled_from([1, 2, 3, 4, 5, 6, 8, 3, 65, 80, 130]))  # also more columns than a machine word has bits
         case["p"] = p
         case["columns"] = draw(st.sampled_from(D.COLUMN_KINDS))
         case["icolumns"] = [draw(st.lists(st.integers(0, p - 1), min_size=1, max_size=p, unique=True))
@@ -254,6 +254,27 @@ def check_detector(case):
     return {"nontrivial": bool(events) and case["index"]["kind"] != "range0", "classes": classes}
 
 
+def pooled_cells(tier):
+    """MVCAPA with default settings on 12..40 channels that share a weak shift (no single channel exceeds its own penalty, the
+    pooled evidence does) next to strong sparse anomalies: predict / transform / round trip through the detector."""
+    for i, (p_, n) in enumerate([(12, 160), (30, 200), (40, 140)] + ([(20, 300), (64, 200)] if tier != "quick" else [])):
+        for weak in (0.5, 0.6, 0.8):
+            yield {"p": p_, "n": n, "weak": weak, "seed": 31000 + i}
+
+
+def check_pooled(case):
+    rng = np.random.Generator(np.random.PCG64(case["seed"]))
+    n, p_ = case["n"], case["p"]
+    X = rng.standard_normal((n, p_)) * 0.3
+    X[n // 2: n // 2 + 20] += case["weak"]            # weak shift shared by every channel
+    X[20:30, :2] += 4.0                                 # strong anomaly in two channels
+    X[n - 15, 3] += 9.0                                 # a point anomaly
+    info = check_detector({"detector": "MVCAPA", "params": {}, "X": X.tolist(), "index": {"kind": "datetime_h", "start": "2020-01-01"},
+                           "columns": "strings", "update_between": False})
+    info["classes"] = list(info["classes"]) + [f"p={p_}"]
+    return info
+
+
 def static_facet(kind, nq, nt):
     return Facet(name=f"static_{kind}", check=check_static, strategy=lambda tier, k=kind: static_cases(tier, k),
                  rule=(f"hand-built valid sparse outputs ({kind}): strictly increasing changepoints / disjoint intervals incl. adjacent, "
@@ -273,4 +294,10 @@ def det_facet(det, nq, nt):
 
 FACETS = [static_facet("change", 600, 10000), static_facet("anomaly", 600, 10000), static_facet("subset", 600, 10000)] + [
     det_facet(d, 120 if d != "CircularBinarySegmentation" else 80, 2000) for d in K.DETECTORS
+] + [
+    Facet(name="pooled_weak_shift", kind="enumerate", enumerate=pooled_cells, check=check_pooled, exhaustive=True, time_limit=300,
+          rule=("default MVCAPA on 12 / 30 / 40 channels (thorough: 64) sharing a weak shift of 0.5-0.8 (noise sd 0.3; detected by pooling although no single "
+                "channel exceeds its penalty) next to a strong two-channel anomaly and a point anomaly; transform == positional labelling of predict "
+                "and dense_to_sparse(transform) == predict; 9 cells (thorough: 15), non-trivial = >= 1 event"),
+          shards_quick=9, shards_thorough=15, max_samples=1),
 ]
